@@ -660,12 +660,3 @@ func VerifC04Via(route, nreq, nopt, rest, nkey, nargs, perm int) {
 		}
 	}
 }
-
-// zzC04StubFixnumReadably replaces Fixnum.Readably (which String, Append and
-// the printer all go through) in the C04.via runs: a rejected call records
-// its form, arguments included, in the condition's stack, and printing a
-// symbolic fixnum digit by digit forks dozens of ways per argument.  Binding
-// and rejection do not depend on the printed text.
-func zzC04StubFixnumReadably(obj slip.Fixnum, b []byte, p *slip.Printer) []byte {
-	return append(b, '7')
-}
